@@ -66,6 +66,9 @@ type Case struct {
 	Crash    int    `json:"crash"` // 0, or 1 + item index
 	CrashMsg string `json:"crash_msg,omitempty"`
 	Feat     Feat   `json:"feat"`
+
+	Conc    *ConcPlan  `json:"conc,omitempty"` // concurrent phase after the sequential one (conc.go)
+	ConcRes ConcResult `json:"conc_res"`
 }
 
 // ---------- addresses ----------
@@ -872,7 +875,10 @@ func gallina(c *Case) string {
 			items++
 		}
 	}
-	fmt.Fprintf(&b, "] %d %d", c.PtrBad, c.Crash)
+	fmt.Fprintf(&b, "] %d %d ", c.PtrBad, c.Crash)
+	pairs, from := concWant(c)
+	ints(&b, pairs)
+	fmt.Fprintf(&b, " %d %d", from, c.ConcRes.Wrong)
 	return b.String()
 }
 
@@ -907,6 +913,9 @@ func main() {
 	tier := flag.String("tier", "quick", "quick | thorough (longer histories)")
 	exh := flag.Int("exh", 1, "also run ALL sequences up to this length over the 58-op tiny alphabet (v4; v6 up to length 1)")
 	replayIn := flag.String("replay", "", "JSON file with cases (ops, npeers, probes) to run")
+	nconc := flag.Int("conc", 8, "number of concurrent plans (look-ups racing with unrelated churn)")
+	concms := flag.Int("concms", 300, "duration of the concurrent phase of one plan, milliseconds")
+	flag.IntVar(&concScale, "concx", 1, "multiply the duration of concurrent phases (replay)")
 	corpus := flag.String("corpus", "", "directory of corpus JSON cases to prepend")
 	flag.Parse()
 	if err := os.MkdirAll(*out, 0o755); err != nil {
@@ -914,6 +923,9 @@ func main() {
 	}
 	var cases []Case
 	prep := func(c *Case, r *rand.Rand) {
+		if c.Conc != nil && len(c.Ops) == 0 {
+			concOps(c)
+		}
 		if c.NPeers == 0 {
 			for _, o := range c.Ops {
 				if o.P+1 > c.NPeers {
@@ -923,6 +935,9 @@ func main() {
 		}
 		if len(c.Probes) == 0 {
 			c.Probes = probesFor(r, c.Ops, 480)
+		}
+		if c.Conc != nil {
+			mergeConcProbes(c)
 		}
 	}
 	if *replayIn != "" {
@@ -970,10 +985,16 @@ func main() {
 		for i := 0; i < *n; i++ {
 			cases = append(cases, g.one(*tier))
 		}
+		for i := 0; i < *nconc; i++ {
+			cases = append(cases, g.concPlan(4+2*(i%2), i/2, *concms))
+		}
 	}
 	for i := range cases {
 		runImpl(&cases[i])
 		features(&cases[i])
+		if cases[i].Conc != nil && cases[i].Crash == 0 {
+			runConc(&cases[i])
+		}
 	}
 	if *shards > len(cases) {
 		*shards = len(cases)
